@@ -208,6 +208,24 @@ pub fn c03(r: &mut Rng, tier: &str) -> Vec<Case> {
             cases.push(c);
         }
     }
+    // self-targeting transfers: every pointer, the stacked word and nn equal to pc + {0, 1, 2, -1}
+    for (page, op) in all_rows() {
+        for (j, delta) in [0u16, 1, 2, 0xFFFF].iter().enumerate() {
+            let mut s = state_for(r, page, op);
+            if j % 2 == 1 {
+                s.pc = r.pick(&[0xFFFEu16, 0xFFFF, 0x0000, 0x7FFF]);
+                let code = encode(page, op, v8(r), v8(r), v8(r));
+                s = with_code(s, &code);
+            }
+            s.regs[F] = [0x00u8, 0xFF, 0x45, 0x80][j];
+            self_target(&mut s, page, *delta);
+            let mut c = Case::new(format!("{}/self{}", tagof(page, op), j));
+            c.key = tagof(page, op);
+            c.push(sbox(s), P_NONE);
+            c.push(Cmd::X, Proj { pc: true, sp: true, ..NONE });
+            cases.push(c);
+        }
+    }
     // call / return nestings
     let nn = if quick(tier) { 200 } else { 5000 };
     for k in 0..nn {
@@ -298,10 +316,26 @@ pub fn c05(r: &mut Rng, tier: &str) -> Vec<Case> {
     let n = if quick(tier) { 8 } else { 64 };
     let mut cases = vec![];
     let pj = Proj { r: false, dbg: 1, mode: Mode::Unknown, ..FULL };
+    // executed "as the instruction it encodes" also when it targets itself: PC after the step
+    for (page, op) in all_rows() {
+        for (j, delta) in [0u16, 1, 0xFFFF].iter().enumerate() {
+            let mut s = state_for(r, page, op);
+            s.regs[F] = [0x00u8, 0xFF, 0x45][j];
+            self_target(&mut s, page, *delta);
+            let mut c = Case::new(format!("{}/self{}", tagof(page, op), j));
+            c.key = tagof(page, op);
+            c.push(sbox(s), P_NONE);
+            c.push(Cmd::X, Proj { pc: true, cyc: true, ..NONE });
+            cases.push(c);
+        }
+    }
     for (page, op) in all_rows() {
         for k in 0..n {
             let mut s = state_for(r, page, op);
             s.dbg = [k % 2 == 0, k % 4 == 3, false, false];
+            if k % 4 == 2 {
+                alias_pc(r, &mut s, page, op);
+            }
             maybe_masked(r, &mut s, k + 2);
             if matches!(page, Page::DDCB | Page::FDCB) {
                 let d = [0x00u8, 0x7F, 0x80, 0xFF][k % 4];
@@ -377,6 +411,34 @@ pub fn c06(r: &mut Rng, tier: &str) -> Vec<Case> {
             c.push(Cmd::X, Proj { regs: true, sp: true, pc: true, ..NONE });
             c.push(Cmd::D, p_mem());
             cases.push(c);
+        }
+    }
+    // leaving a HALT at the edges of the address space (the address after the HALT wraps)
+    for (j, pc) in [0xFFFFu16, 0xFFFE, 0x0000, 0x7FFF, 0x00FF].iter().enumerate() {
+        for top in [0xFFFFu16, 0x7FFF] {
+            for kind in 0..4 {
+                let mut s = rand_state(r);
+                s.top = top;
+                s.pc = *pc;
+                s.halt = true;
+                s.im = (kind % 3) as u8;
+                s.sp = r.pick(&EDGE_ADDR);
+                match kind {
+                    0 => s.nmi = true,
+                    _ => {
+                        s.iff1 = true;
+                        s.int = Some(r.pick(&RST_OPS));
+                    }
+                }
+                let p = s.pc;
+                s.poke(p, &[0x76]);
+                let mut c = Case::new(format!("wake/pc{}k{}t{}", j, kind, cls16(top)));
+                c.key = "wake".into();
+                c.push(sbox(s), P_NONE);
+                c.push(Cmd::X, Proj { regs: true, sp: true, pc: true, ..NONE });
+                c.push(Cmd::D, p_mem());
+                cases.push(c);
+            }
         }
     }
     // disassembler at the edges of every top, every opcode (and every CB row)
@@ -532,6 +594,56 @@ pub fn c07(r: &mut Rng, tier: &str) -> Vec<Case> {
                 cases.push(c);
             }
         }
+    }
+    // (e) histories that declare the range again: stores, a new declaration covering what was RAM
+    // (and uncovering what was ROM), more stores; bus level and through CPU stores
+    let nre = if quick(tier) { 300 } else { 6000 };
+    for k in 0..nre {
+        let mut s = rand_state(r);
+        s.seed = SEEDS[1 + k % 5];
+        s.top = if k % 3 == 0 { 0x00FF } else { 0xFFFF };
+        let base = if s.top == 0xFFFF { r.u16() & 0xFE00 } else { 0 };
+        let two = s.top == 0xFFFF;
+        // ranges and stores live in two neighbouring 256-byte pages
+        let span = move |r: &mut Rng| -> (u16, u16) {
+            let a = base.wrapping_add(r.u16() & if two { 0x1FF } else { 0xFF });
+            let len = match r.below(3) { 0 => r.u16() & 0x3F, 1 => 0xFF, _ => r.u16() & 0x1FF };
+            (a, a.wrapping_add(len))
+        };
+        let anyaddr = move |r: &mut Rng| -> u16 { base.wrapping_add(r.u16() & if two { 0x1FF } else { 0xFF }) };
+        s.rom = Some(span(r));
+        // a little program of stores through HL / the stack in that page
+        s.pc = base.wrapping_add(0x80);
+        s.sp = base.wrapping_add(0x70 + (r.u16() & 0x0F));
+        s.set_pair(H, base.wrapping_add(r.u16() & 0xFF));
+        let mut c = Case::new(format!("redeclare/{}", k % 8));
+        c.key = "redeclare".into();
+        c.push(sbox(s), P_NONE);
+        for j in 0..24 {
+            match r.below(6) {
+                0 => {
+                    let (a, b) = span(r);
+                    c.push(Cmd::ROM(a, b), P_NONE);
+                }
+                1 => {
+                    c.push(Cmd::WW(anyaddr(r), r.u16()), P_NONE);
+                }
+                2 => {
+                    // LD (HL),A at pc via a host-installed opcode is itself a write; use the stack: CALL-like push by NMI
+                    c.push(Cmd::N, P_NONE);
+                    c.push(Cmd::X, P_NONE);
+                    c.push(Cmd::Sync, P_NONE);
+                }
+                _ => {
+                    c.push(Cmd::WB(anyaddr(r), r.u8()), P_NONE);
+                }
+            }
+            if j % 3 == 2 {
+                c.push(Cmd::D, p_mem());
+            }
+        }
+        c.push(Cmd::D, p_mem());
+        cases.push(c);
     }
     // (d) random programs over a ROM-mapped image, with interrupts
     let (np, ns) = if quick(tier) { (40, 150) } else { (1000, 500) };
@@ -1175,11 +1287,28 @@ pub fn c17(r: &mut Rng, tier: &str) -> Vec<Case> {
                 c.rels.push(Rel { a: w[0].1, b: w[1].1, proj: p_mem(), swap_xy: false, what: "diagnostic switches only observe (memory)" });
             }
             // (b) the same state after a different history: run something else first, then restore
-            let other = state_for(r, page, op.wrapping_mul(31).wrapping_add(k as u8));
+            // the same CPU object first lives through another history that ends with a control instruction
+            // (EI, DI, HALT, IM n, RETN, RETI, LD A,I, a prefix, ...), then is put into state `s` again
+            let mut other = state_for(r, page, op.wrapping_mul(31).wrapping_add(k as u8));
+            other.top = s.top;
+            let tail: [&[u8]; 10] = [&[0xFB], &[0xF3], &[0x76], &[0xED, 0x46], &[0xED, 0x5E], &[0xED, 0x45], &[0xED, 0x4D],
+                                     &[0xED, 0x57], &[0xDD, 0xFB], &[0x00]];
+            let opc = other.pc;
+            let mut code: Vec<u8> = vec![0x00];
+            code.extend_from_slice(tail[(k + op as usize) % 10]);
+            other.poke(opc, &code);
+            other.halt = false;
+            other.int = None;
+            other.nmi = false;
             c.push(sbox(other), P_NONE);
             c.push(Cmd::X, P_NONE);
             c.push(Cmd::X, P_NONE);
-            c.push(sbox(s.clone()), P_NONE);
+            let mut s1 = s.clone();
+            if k % 2 == 1 && s1.int.is_none() {
+                s1.int = Some(r.pick(&RST_OPS));
+            }
+            let s = s1;
+            c.push(Cmd::SR(Box::new(s.clone())), P_NONE);
             let x2 = c.push(Cmd::X, P_NONE);
             let d2 = c.push(Cmd::D, P_NONE);
             let mut s0 = s.clone();
